@@ -136,6 +136,31 @@ class Ctx:
         self.assume(e if d else z3.Not(e))
         return d
 
+    def scoped(self, e):
+        """context manager: assume e only inside the block (obligations generated inside keep it as a hypothesis)"""
+        ctx = self
+
+        class _S:
+            def __enter__(s_):
+                s_.n = len(ctx.pc)
+                s_.m = len(ctx.pc_nogoal)
+                s_.had_full = ctx.full is not None
+                ctx.feas.push()
+                if s_.had_full:
+                    ctx.full.push()
+                ctx.assume(e)
+
+            def __exit__(s_, *a):
+                del ctx.pc[s_.n:]
+                del ctx.pc_nogoal[s_.m:]
+                ctx.feas.pop()
+                if s_.had_full:
+                    ctx.full.pop()
+                else:
+                    ctx.full = None
+                return False
+        return _S()
+
     def entails(self, e):
         """True only if the current path condition provably implies e (quick check; False = don't know)."""
         e = z3.simplify(lift(e))
@@ -693,7 +718,11 @@ class SArr:
     def __pow__(self, o):
         c = concrete(o)
         if c == 2:
-            return SArr(self.shape_e, lambda *ix: self.elem(*ix) * self.elem(*ix), self.kind, nan=self.nan)
+            r = SArr(self.shape_e, lambda *ix: self.elem(*ix) * self.elem(*ix), self.kind, nan=self.nan)
+            g = getattr(self, 'gather_of', None)
+            if g is not None:
+                r.gather_of = (g[0] ** 2, g[1])
+            return r
         if c == 1:
             return self.copy()
         return self._ew(o, lambda a, b: upow(to_real(a), to_real(b)), kind='f')
@@ -930,8 +959,10 @@ class SArr:
 
         def nrm(v):
             return z3.If(v < 0, v + n, v)
-        return SArr(idx.shape_e, lambda *ix: base(nrm(idx.elem(*ix))), self.kind,
-                    nan=(None if basenan is None else (lambda *ix: basenan(nrm(idx.elem(*ix))))))
+        r = SArr(idx.shape_e, lambda *ix: base(nrm(idx.elem(*ix))), self.kind,
+                 nan=(None if basenan is None else (lambda *ix: basenan(nrm(idx.elem(*ix))))))
+        r.gather_of = (self, idx)
+        return r
 
     def _gather_rows(self, idx):
         n = self.shape_e[0]
@@ -1208,6 +1239,24 @@ def kind_of_dtype(t):
     if isinstance(t, str):
         return {'int': 'i', 'float': 'f', 'bool': 'b'}.get(t)
     return None
+
+
+class SymList:
+    """closure form of a list comprehension over a symbolic-length iterable: item(j) evaluates the element expression at index j"""
+
+    def __init__(self, n, item):
+        self.n = lift(n)
+        self.item = item
+
+    def __sym_len__(self):
+        return _c_or_s(self.n)
+
+    def __getitem__(self, j):
+        if isinstance(j, slice):
+            raise Unsupported('slice of symbolic list')
+        if not Ctx.spec:
+            C().oblige('index-in-bounds', z3.And(-self.n <= lift(j), lift(j) < self.n), 'safety')
+        return self.item(j)
 
 
 class SNan:
